@@ -30,19 +30,21 @@
 
 void harness(void)
 {
-	char want[PATHMAX], canon[PATHMAX];
+	char want[PATHMAX], got[PATHMAX], canon[PATHMAX];
 	char *out = (char *)(uintptr_t)1;
 	bool all_ok = true;
 	size_t o = 0, i;
-	int k, ret, sret;
+	int k, ret, sret, eq = 1;
 
 	build_tree();
 
 	/* expected text, built root-first */
 	for (k = 1; k <= DEPTH; ++k) {
 		want[o++] = '/';
-		for (i = 0; g_nodes[k].name[i] != '\0'; ++i)
-			want[o++] = (char)g_nodes[k].name[i];
+		const char *nm = (const char *)g_nodes[k].name;
+
+		for (i = 0; nm[i] != '\0'; ++i)
+			want[o++] = nm[i];
 		if (!spec_component_ok((const char *)g_nodes[k].name))
 			all_ok = false;
 	}
@@ -62,9 +64,24 @@ void harness(void)
 			     "C06.get_path.components");
 		VERIF_ASSERT(all_ok && g_nodes[0].name[0] == '\0',
 			     "C06.get_path.components");
-		VERIF_ASSERT(strcmp(out, want) == 0, "C06.get_path.components");
+		/* copy out of the heap object first (symbolic-size objects
+		 * are expensive to reason about), bounded by the longest
+		 * legal result */
+		for (i = 0; i < PATHMAX; ++i) {
+			got[i] = out[i];
+			if (out[i] == '\0')
+				break;
+		}
+		VERIF_ASSERT(i < PATHMAX, "C06.get_path.components");
+		for (i = 0; i < PATHMAX; ++i) {
+			if (got[i] != want[i])
+				eq = 0;
+			if (want[i] == '\0')
+				break;
+		}
+		VERIF_ASSERT(eq, "C06.get_path.components");
 
-		sret = spec_canon(out, canon);
+		sret = spec_canon(got, canon);
 		if (DEPTH > 0) {
 			VERIF_ASSERT(sret == 0 && spec_confined(canon) &&
 				     spec_slashes(canon) == DEPTH - 1,
